@@ -96,6 +96,10 @@ def _run_model(case, ctx):
     monotone = not case.get("nonmonotone")
     P = GM.random_params(name, r, typed=case.get("typed"), monotone=monotone)
     easy = False
+    if name == "Quadratic" and monotone and case["seed"] % 4 == 0:
+        # a parameter on the boundary of its physical range: no first-order term (still increasing for Kb > 0)
+        P = dict(P, Ka=0.0)
+        ctx.count("model_objects", "Quadratic/Ka=0")
     if name == "Virial" and case["seed"] % 2 == 0:
         # well-conditioned subset on which the Nelder-Mead inverse (started at n0 = p, absolute tolerances 1e-4)
         # is expected to work: p ~ n ~ O(1..10), monotone p(n); judged without any known-finding escape
